@@ -17,9 +17,12 @@ Ghost state (all defined from the sequencer's ports only; "…p" = value describ
   p, pairs         the *specified* host-chirp recogniser: after the device chirp, a K run >= 150 cycles (2.5 us) sets p;
                    then a J run >= 150 cycles completes a pair (pairs+1, p cleared); anything else on the line in between
                    is ignored (glitch tolerant).  Reset by a reported bus reset and while the device chirps.
-  hc               while not suspended: "a suspend entered now would be a high-speed suspend" (r and the revert was at most
-                   875 us ago); frozen while `suspended` is reported
-  susp_prev        `suspended` one cycle ago
+  speed_at_suspend while not suspended: the operating speed a suspend entered now would be entered at -- HIGH when the device
+                   left high-speed operation after 3 ms of HS idle at most 875 us ago (r; the 200 us full-speed look that
+                   tells suspend from reset), otherwise the `current_speed` output of this cycle; frozen while `suspended`
+                   is reported, i.e. during a suspend it is the speed the device had when it entered THAT suspend
+  resumed_prev     one cycle ago `suspended` was reported without a bus reset (so "resumed_prev and not suspended" = the
+                   suspend was left in the previous cycle by a resume, not by a reset)
 
 Timing convention: decisions are taken by the design in cycle t from registers that describe cycles < t, so every clause
 is stated at the decision cycle with the "p" ghosts (e.g. bus_reset in cycle t => the 300 cycles before t were SE0).
@@ -127,15 +130,15 @@ def body(c, ts, path, X, can_chirp=True):
     j_ok = z3.And(p == 1, ge(j_now, T2P5US), pairs != 3)
     c.set_next(p, z3.If(rec_reset, bvc(0, 1), z3.If(k_ok, bvc(1, 1), z3.If(j_ok, bvc(0, 1), p))))
     c.set_next(pairs, z3.If(rec_reset, bvc(0, 2), z3.If(j_ok, pairs + 1, pairs)))
-    hc = c.ghost("hc", 1)
-    c.set_next(hc, z3.If(suspended, hc, bv1(z3.And(r == 1, le(since_hs, T875US)))))
-    susp_prev = c.ghost("susp_prev", 1); c.set_next(susp_prev, bv1(suspended))
+    sas = c.ghost("speed_at_suspend", 2, init=FULL)
+    c.set_next(sas, z3.If(suspended, sas, z3.If(z3.And(r == 1, le(since_hs, T875US)), bvc(HIGH, 2), speed)))
+    resumed_prev = c.ghost("resumed_prev", 1); c.set_next(resumed_prev, bv1(z3.And(suspended, z3.Not(bus_reset))))
 
     # ------------------------------------------------------------------ invariant (abstraction map)
     fsm = ts.fsm(path + "fsm_state")
     S = fsm.is_
     timer, lst = zx(sig("timer"), W), zx(sig("line_state_time"), W)
-    vp, was_hs, tddis = sig("valid_pairs"), sig("was_hs_pre_suspend"), sig("tddis")
+    vp, tddis = sig("valid_pairs"), sig("tddis")
     HANDSHAKE = ("AWAIT_HOST_K", "IN_HOST_K", "AWAIT_HOST_J", "IN_HOST_J")
     c.inv("fsm_legal", fsm.legal())
     # PHY configuration per state
@@ -156,7 +159,11 @@ def body(c, ts, path, X, can_chirp=True):
     c.inv("untainted_fs_states", z3.Implies(S("INITIALIZE", "LS_FS_NON_RESET", "SUSPENDED", "DISCONNECT"), tainted == 0))
     c.inv("detect_hs_suspend_window", z3.Implies(S("DETECT_HS_SUSPEND"),
                                                  z3.And(r == 1, timer == since_hs, le(timer, T200US))))
-    c.inv("suspend_kind", z3.Implies(S("SUSPENDED"), was_hs == hc))
+    # during a suspend the PHY stays at the full/low speed it was entered with (full speed after a high-speed suspend) ...
+    c.inv("suspend_speed_frozen", z3.Implies(S("SUSPENDED"), z3.And(sas != 3, speed == z3.If(sas == HIGH, bvc(FULL, 2), sas))))
+    # ... and the unit's own "was high speed before this suspend" flag is the abstraction of the ghost (incidental register:
+    # try_inv, so that renaming it degrades the contract instead of breaking it)
+    c.try_inv("suspend_kind", lambda: z3.Implies(S("SUSPENDED"), (sig("was_hs_pre_suspend") == 1) == (sas == HIGH)))
     # chirp handshake
     c.inv("handshake_after_device_chirp", z3.Implies(S(*HANDSHAKE), z3.And(ge(cl, 1), timer == sc, z3.ULE(vp, 2))))
     c.inv("await_timer_within_2p5ms", z3.Implies(S(*HANDSHAKE), le(timer, T2P5MS)))
@@ -166,7 +173,7 @@ def body(c, ts, path, X, can_chirp=True):
     c.inv("pairs_k_phase", z3.Implies(S("AWAIT_HOST_K", "IN_HOST_K"), z3.ULE(zx(z3.Concat(vp, bvc(0, 1)), 4), prog)))
     c.inv("pairs_j_phase", z3.Implies(S("AWAIT_HOST_J", "IN_HOST_J"), z3.ULE(zx(z3.Concat(vp, bvc(1, 1)), 4), prog)))
     handshake_done = z3.And(ge(cl, 1), pairs == 3, le(sc, T2P5MS + 1))
-    resume_hs = z3.And(susp_prev == 1, hc == 1)
+    resume_hs = z3.And(resumed_prev == 1, z3.Not(suspended), sas == HIGH)
     c.inv("is_high_speed_justified", z3.Implies(S("IS_HIGH_SPEED"), z3.Or(handshake_done, resume_hs)))
     c.inv("hs_mode_states", z3.Implies(hs_mode, S("HS_NON_RESET", "IS_LOW_OR_FULL_SPEED", "DISCONNECT")))
     c.inv("post_chirp_window", z3.Implies(z3.And(S("IS_LOW_OR_FULL_SPEED", "IS_HIGH_SPEED"), op == CHIRP),
@@ -219,6 +226,19 @@ def body(c, ts, path, X, can_chirp=True):
     c.ensure("suspend_only_after_3ms_idle", z3.Implies(enter_susp, z3.Or(ge(idlep, T3MS), hs_suspend)),
              clause="suspend is entered only after 3 ms of continuous idle (at high speed: 3 ms of SE0 = HS idle, then the "
                     "full-speed idle state J seen 200 us after reverting to full speed)")
+    leave_by_resume = z3.And(suspended, z3.Not(bus_reset), c.nx(z3.Not(suspended)))
+    c.ensure("resume_restores_speed_at_suspend",
+             z3.Implies(leave_by_resume,
+                        z3.And(c.nx(speed, 2) == sas, c.nx(op, 2) == NORMAL,
+                               c.nx(term, 2) == z3.If(sas == HIGH, bvc(0, 1), bvc(1, 1)),
+                               z3.Implies(sas != HIGH, z3.And(c.nx(speed) == sas, c.nx(fs_ls_normal))))),
+             clause="(or when resuming from a suspend entered at high speed): a resume returns the device to the speed it was "
+                    "operating at when it entered that suspend -- high speed (within two cycles) iff that suspend was entered "
+                    "at high speed, otherwise the unchanged full/low speed")
+    c.ensure("suspended_keeps_fs_ls_speed",
+             z3.Implies(suspended, z3.And(fs_ls_normal, speed == z3.If(sas == HIGH, bvc(FULL, 2), sas))),
+             clause="while suspended the PHY stays in full/low-speed normal mode at the speed the suspend was entered with "
+                    "(full speed for a suspend entered at high speed)")
     c.ensure("suspend_not_in_hs_operation", z3.Implies(suspended, z3.Not(hs_mode)),
              clause="suspend is entered only after 3 ms of continuous idle (never directly from high-speed operation)")
 
@@ -232,6 +252,9 @@ def body(c, ts, path, X, can_chirp=True):
     c.cover("restricted_in_hs", z3.And(hs_mode, restricted, S("HS_NON_RESET")), reach=False)
     c.cover("suspend_fs", z3.And(enter_susp, S("LS_FS_NON_RESET")), reach=False)
     c.cover("suspend_hs", z3.And(enter_susp, S("DETECT_HS_SUSPEND")), reach=False)
+    c.cover("resume_to_full_speed", z3.And(leave_by_resume, sas == FULL), reach=False)
+    c.cover("resume_to_low_speed", z3.And(leave_by_resume, sas == LOW), reach=False)
+    c.cover("resume_to_high_speed", z3.And(leave_by_resume, sas == HIGH), reach=False)
     c.cover("handshake_timeout", z3.And(awaiting, S("AWAIT_HOST_K"), c.nx(S("IS_LOW_OR_FULL_SPEED"))), reach=False)
     c.cover("restricted_reset_does_not_chirp", z3.And(bus_reset, vbus, restricted, S("LS_FS_NON_RESET")), reach=False)
     if can_chirp:          # (a device on a full-speed-only PHY is permanently restricted: this situation must not exist there)
